@@ -168,6 +168,14 @@ class NaiveForecaster(_OptionalForecastingHorizonMixin, _BaseWindowForecaster):
                 return np.repeat(last_window[-1], len(fh))
 
             else:
+                # the available window can be shorter than one season for in-sample
+                # predictions near the start of the series: seasons that have not
+                # been observed yet are missing, keep the window aligned with its end
+                if len(last_window) < self.sp_:
+                    last_window = np.hstack(
+                        [np.full(self.sp_ - len(last_window), np.nan), last_window]
+                    )
+
                 # we need to replicate the last window if max(fh) is larger
                 # than sp,so that we still make forecasts by repeating the
                 # last value for that season, assume fh is sorted, i.e. max(
